@@ -7,8 +7,8 @@ CONSTANTS
   EX = 0
   INST = {0, 1, 2}
   SIDE <- TraceSIDE
-  PRICE <- TracePos
-  QTY <- TracePos
+  PRICE <- TraceNat
+  QTY <- TraceNat
   BUNDLE <- TraceBUNDLE
 INVARIANTS Done AtMostOne Kind Attribution
 PROPERTIES TProps
